@@ -48,4 +48,15 @@ PROPS["C06"] = {
     "assumptions": ["handlers do not use the stream after returning; a foreign peer omitting the leading / of the method is outside the quantifier"],
 }
 
+PROPS["C12"] = {
+    "level_text": "Theorems (Lean 4, all envelopes, all registries, all sequence lengths): the server's classification of an incoming envelope never reaches the panic outcome; a handler is dispatched or a stream opened only if the header is present, the method parses, the destination equals the server's name, service and method are registered and the metadata decodes; a body for an unregistered stream id is answered with a reset for that id; trailers/resets for unknown ids have no effect; a duplicate open starts no second handler; by induction over the sequence the connection stays alive and a valid unary request appended to ANY sequence is dispatched exactly once. Negative witness for the pre-repair panic. Tied to /repo by flags, the serve/processStreamingRpc/resetStream skeletons and an exact lock-step: every sequence is fed to a real Serve over a scripted transport (one envelope at a time, waiting on hook events, no settle times) and the observed handler invocations, stream starts, resets, error replies and cancellations are compared with the model's prediction.",
+    "level_note": "Trusted: Lean kernel; extractor; harness. Handlers in the sequence runs consume their input until it ends (a handler that neither reads nor returns blocks its connection by design of the one-slot queue: srv_no_wedge, C11).",
+    "technique": "Lean 4 proof (case analysis + induction over envelope sequences) + exact lock-step of real Serve against the model on bounded-exhaustive and random sequences",
+    "props": ["Goat.Props.C12"],
+    "tie": ["Goat.Tie.C12"],
+    "rule": "50 envelope shapes (25 shapes x 2 ids): every single envelope (exhaustive), every pair (thorough: exhaustive), random sequences of length 2-4 and 5-40 biased towards conversations on an open stream, each followed by a valid probe; parseRawMethod on fixed and random strings; non-trivial = every sequence (distinct inputs)",
+    "modelled_not_verified": COMMON_MNV,
+    "assumptions": ["a crash of the harness process while running the real server is reported as a violation with the sequence in progress as the replay"],
+}
+
 NOT_YET = {}
